@@ -134,7 +134,7 @@ def replay(w, ctx):
 def floors(m, tier):
     out = []
     c = m['counters']
-    need = 150000 if tier == 'quick' else 3000000
+    need = 150000 if tier == 'quick' else 2000000
     if c.get('assignments_presented', 0) < need:
         out.append('only %d assignments presented (< %d)' % (c.get('assignments_presented', 0), need))
     if c.get('contract_evals_check_stability_in_domain', 0) < need:
